@@ -83,9 +83,10 @@ func (i ImportNames) TypeName(t types.Type) string {
 			// Universe types such as "error" belong to no package.
 			return typ.Obj().Name()
 		}
-		if pkgName, ok := i[typ.Obj().Pkg().Path()]; ok {
+		if pkgName, ok := i[typ.Obj().Pkg().Path()]; ok && pkgName != "." {
 			return fmt.Sprintf("%v.%v", pkgName, typ.Obj().Name())
 		}
+		// A local type, or one of a dot-imported package: both are referred to by their bare name.
 		return typ.Obj().Name()
 	default:
 		// Composite types (slices, maps, funcs, ...) may mention named types of other
@@ -99,7 +100,7 @@ func (i ImportNames) TypeName(t types.Type) string {
 // setup file imports its package under.
 func (i ImportNames) qualifiedString(t types.Type) string {
 	return types.TypeString(t, func(pkg *types.Package) string {
-		if pkgName, ok := i[pkg.Path()]; ok {
+		if pkgName, ok := i[pkg.Path()]; ok && pkgName != "." {
 			return pkgName
 		}
 		return ""
